@@ -27,6 +27,7 @@ import (
 	"fmt"
 	"os"
 	"runtime"
+	"runtime/debug"
 	"sort"
 	"strconv"
 	"strings"
@@ -580,7 +581,11 @@ func (x *cx) issueOne(app *fiber.App, name, val string) (string, bool) {
 // ---------------------------------------------------------------------------
 // layer A
 
-func layerA(l *core.Local, ki, ni, vi, mask int, vals []string, sample bool) {
+func layerA(l *core.Local, ki, ni, vi, mask int, vals []string, part, parts int, sample bool) {
+	real := l
+	if part > 0 {
+		l = core.NewLocal() // issue/replay of this case are judged by part 0; here they only rebuild the same ciphertext
+	}
 	x := &cx{l: l, layer: "A", ki: ki, mask: mask}
 	app, base := mwApp(ki, mask), baseApp()
 	name, val := names[ni], vals[vi]
@@ -620,7 +625,11 @@ func layerA(l *core.Local, ki, ni, vi, mask int, vals []string, sample bool) {
 			}
 		}
 		try("issued", []byte(C0))
-		forEachFull(C0, try)
+		l, x.l = real, real
+		forEachFull(C0, part, parts, try)
+		if part > 0 {
+			return
+		}
 		if sendable(val) {
 			try("plaintext", []byte(val))
 		}
@@ -648,7 +657,8 @@ func layerA(l *core.Local, ki, ni, vi, mask int, vals []string, sample bool) {
 	}
 
 	// every alteration
-	forEachFull(W, func(kind string, s []byte) {
+	l, x.l = real, real
+	forEachFull(W, part, parts, func(kind string, s []byte) {
 		req := []sent{{Name: name, Text: string(s), Mode: mAltered, Kind: kind, C: W, Cb: Cb, Issued: issued}}
 		e := do(app, hdr1(name, s), nil)
 		l.Add("evaluations", 1)
@@ -665,6 +675,10 @@ func layerA(l *core.Local, ki, ni, vi, mask int, vals []string, sample bool) {
 			l.Add("tamper_rejected_or_same", 1)
 		}
 	})
+
+	if part > 0 {
+		return
+	}
 
 	// ciphertext of every other key (same name, same value)
 	for kj := range keys {
@@ -1136,6 +1150,52 @@ type item struct {
 	Mask  int
 	Tuple []int
 	Bad   int
+	Part  int // layer A, 4 KiB value: the manipulations are split by position into Parts work items
+	Parts int
+}
+
+// cost is a rough relative CPU estimate used only to balance the static assignment to workers.
+func (it item) cost(thorough bool) float64 {
+	switch it.Layer {
+	case "A":
+		c := 0.05
+		if it.Vi == 7 {
+			c = 40 / float64(it.Parts)
+		}
+		if excepted(it.Mask, names[it.Ni]) {
+			c *= 2 // every exchange is repeated on the application without the middleware
+		}
+		return c
+	case "B":
+		if thorough && len(it.Tuple) == 3 {
+			return 1.5
+		}
+		return 0.3
+	}
+	return 0.01
+}
+
+// assign distributes the items over n workers: longest estimated first, each to the least loaded
+// worker (ties: lowest worker index). Pure function of the item list and n.
+func assign(items []item, n int, thorough bool) []int {
+	order := make([]int, len(items))
+	for i := range order {
+		order[i] = i
+	}
+	sort.SliceStable(order, func(a, b int) bool { return items[order[a]].cost(thorough) > items[order[b]].cost(thorough) })
+	load := make([]float64, n)
+	out := make([]int, len(items))
+	for _, i := range order {
+		w := 0
+		for j := 1; j < n; j++ {
+			if load[j] < load[w] {
+				w = j
+			}
+		}
+		out[i] = w
+		load[w] += items[i].cost(thorough)
+	}
+	return out
 }
 
 func tuples(k int) [][]int {
@@ -1191,7 +1251,13 @@ func main() {
 					if vi == 7 && mask != 0 && mask != 1<<ni && mask != 7^(1<<ni) {
 						continue
 					}
-					items = append(items, item{Layer: "A", Ki: ki, Ni: ni, Vi: vi, Mask: mask})
+					parts := 1
+					if vi == 7 {
+						parts = 8
+					}
+					for p := 0; p < parts; p++ {
+						items = append(items, item{Layer: "A", Ki: ki, Ni: ni, Vi: vi, Mask: mask, Part: p, Parts: parts})
+					}
 				}
 			}
 		}
@@ -1215,19 +1281,28 @@ func main() {
 	}
 
 	if r.IsWorker() {
+		// the live heap of a worker is tiny and every exchange leaves a few KiB of garbage:
+		// with the default GOGC more than a third of the CPU went into back-to-back GC cycles
+		debug.SetGCPercent(4000)
 		l := core.NewLocal()
+		nwk := r.NWorkers
+		if nwk < 1 {
+			nwk = 1
+		}
+		owner := assign(items, nwk, !quick)
 		for idx, it := range items {
-			if !r.Shard(idx) {
+			if owner[idx] != r.Worker {
 				continue
 			}
 			if r.Expired() {
 				r.Cap("wall-clock budget reached before all work items were explored")
 				break
 			}
-			reseed(uint64(idx) + 1)
+			// the random stream depends on the item only (all parts of one layer-A case see the same ciphertexts)
+			reseed(uint64(idx-it.Part) + 1)
 			switch it.Layer {
 			case "A":
-				layerA(l, it.Ki, it.Ni, it.Vi, it.Mask, vals, it.Mask == 0 && ((it.Ki == 0 && it.Ni == 1 && it.Vi == 2) || (it.Ki == 4 && it.Ni == 0 && it.Vi == 3) || (it.Ki == 3 && it.Ni == 2 && it.Vi == 6)))
+				layerA(l, it.Ki, it.Ni, it.Vi, it.Mask, vals, it.Part, it.Parts, it.Mask == 0 && ((it.Ki == 0 && it.Ni == 1 && it.Vi == 2) || (it.Ki == 4 && it.Ni == 0 && it.Vi == 3) || (it.Ki == 3 && it.Ni == 2 && it.Vi == 6)))
 			case "B":
 				menu := menu2
 				if len(it.Tuple) == 3 {
